@@ -12,7 +12,7 @@ import (
 // repaired (/verif/KNOWN_FINDINGS.txt). It is never written at run time.
 // A line: finding: property=C19 rule=C19.get trigger=<name> <description>
 type knownFinding struct {
-	prop, rule, trigger, desc string
+	prop, rule, trigger, witness, desc string
 }
 
 type knownSet []knownFinding
@@ -41,11 +41,14 @@ func loadKnown(path, prop string) knownSet {
 				k.rule = strings.TrimPrefix(w, "rule=")
 			case strings.HasPrefix(w, "trigger=") && k.trigger == "":
 				k.trigger = strings.TrimPrefix(w, "trigger=")
+			case strings.HasPrefix(w, "witness=") && k.witness == "":
+				k.witness = strings.TrimPrefix(w, "witness=")
 			default:
 				desc = append(desc, w)
 			}
 		}
 		k.desc = strings.Join(desc, " ")
+		sim.KnownTriggers[k.trigger] = true
 		if k.prop == prop {
 			ks = append(ks, k)
 		}
